@@ -329,6 +329,9 @@ class Check:
         evdir = os.path.join(VERIF, "evidence") if os.path.realpath(REPO) == "/repo" else os.path.join(BUILD, "evidence")
         os.makedirs(evdir, exist_ok=True)
         json.dump(ev, open(os.path.join(evdir, self.prop + ".json"), "w"), indent=1)
+        # evidence/<ID>.json is rewritten by whichever tier ran last; the last run of each tier is kept next to it
+        os.makedirs(os.path.join(evdir, "tiers"), exist_ok=True)
+        json.dump(ev, open(os.path.join(evdir, "tiers", "%s.%s.json" % (self.prop, self.tier)), "w"), indent=1)
         log("%s tier=%s evaluations=%d nontrivial=%d states=%d transitions=%d exhaustive=%s wall=%.1fs violations=%d known=%d" % (
             self.prop, self.tier, self.evaluations, self.nontrivial, self.states, self.transitions, self.exhaustive, wall,
             len(unlisted), cov["known_findings_matched"]))
